@@ -789,6 +789,40 @@ val spec_json : value -> string option
 
 val text_of : value -> string option
 
+type serr =
+| SConst of value
+| SConflict
+| SPanic of site
+
+type 'a sres =
+| SOk of 'a
+| SErr of serr
+| SFuel
+
+val sbind : 'a1 sres -> ('a1 -> 'a2 sres) -> 'a2 sres
+
+type slot = { sl_key : value; sl_pending : yaml list; sl_const : bool }
+
+type acc =
+| ANull
+| AScalar of value
+| ASeq of yaml list
+| AMaps of slot list
+
+val key_of : yaml -> (value * prefix option) sres
+
+val slot_write : value -> prefix option -> yaml -> slot list -> slot list sres
+
+val collect : (yaml * yaml) list -> slot list -> slot list sres
+
+val scalar_of : yaml -> value option
+
+val combine : acc -> yaml -> acc sres
+
+val combine_all : acc -> yaml list -> acc sres
+
+val deep_merge : nat -> yaml list -> value sres
+
 val run_fuel : nat
 
 val merge_layers : yaml list -> mapping res
@@ -857,3 +891,9 @@ val literalize : value -> value
 val run_textof : string list -> string
 
 val run_line3 : string -> string
+
+val run_spec : string list -> string
+
+val run_value2 : string list -> string
+
+val run_line4 : string -> string
